@@ -97,7 +97,7 @@ PROPS = {
         domains=[("codec", "answer", 6000, 100000), ("smserver", "hist", 800, 10000), ("smserver", "cer", 800, 10000), ("sctp", "serve", 300, 4000), ("sctp", "canswer", 120, 1500), ("retry", "write", 2000, 30000)],
         relevant=["C16:"],
         theorems=['DV.Props.C16.C16_answer_ids', 'DV.Props.C16.C16_answer_flags', 'DV.Props.C16.C16_answer_result_code', 'DV.Props.C16.C16_answer_stream', 'DV.Props.C16.C16_sctp_stream', 'DV.Props.C16.C16_answer_len', 'DV.Props.C16.C16_gen', 'DV.Props.C16.C16_cea', 'DV.Props.C16.C16_dwa', 'DV.Props.C16.C16_concurrent_streams', 'DV.Props.C16.C16_select_then_write_counterexample'],
-        gen_obligations=['Gen.RequestFlag', 'Gen.InvalidStreamID', 'Gen.Mbit', 'Gen.responseWriteStreamExits'],
+        gen_obligations=['Gen.RequestFlag', 'Gen.InvalidStreamID', 'Gen.Mbit', 'Gen.responseWriteStreamExits', 'Gen.writeStreamArgs'],
         trusted=CODEC_TRUST,
     ),
     "C20": dict(
